@@ -2750,6 +2750,16 @@ XPathProcessorImpl::LocationPathPattern()
 
             expectRelativePathPattern = true;
         }
+        else if (m_token.empty() == false &&
+                 tokenIs(XalanUnicode::charSolidus) == false &&
+                 tokenIs(XalanUnicode::charVerticalLine) == false)
+        {
+            // Only '/', '//' or the next alternative can follow
+            // the call...
+            error(
+                XalanMessages::UnexpectedTokenFound_1Param,
+                m_token);
+        }
     }
     else if(tokenIs(XalanUnicode::charSolidus) == true)
     {
